@@ -120,8 +120,17 @@ def ev(e, env, mul):
     if k == "MethodCall":
         n = e["name"]
         r = ev(e["recv"], env, mul)
-        if n in ("ok", "ok_or", "ok_or_else", "map_err", "or", "copied", "cloned"):
+        if n in ("ok", "ok_or", "ok_or_else", "map_err", "copied", "cloned"):
             return r
+        if n in ("or", "or_else") and len(e["args"]) == 1:
+            # an alternative widens what is accepted, unless it is itself a failure
+            a_ = _closure_of(e["args"][0])
+            alt = ev(a_["body"] if a_ is not None else e["args"][0], env, mul)
+            if alt == NEVER or (alt != NEVER and alt.lo > alt.hi):
+                return r
+            if r == NEVER or r.lo > r.hi:
+                return alt
+            raise Unx(f"`.{n}(..)` with an alternative that can succeed")
         if n in ("map", "and_then") and len(e["args"]) == 1:
             if r == NEVER:
                 return r
@@ -158,33 +167,63 @@ def ev(e, env, mul):
     raise Unx(f"{k} {ekey(e)[:40]}")
 
 
+_SV = {1: 1, -1: -1}     # what the sign local holds without / after a `-` (an integer factor, or a flag)
+
+
 def _mul_test(c, mul):
-    """truth of `mul == 1`, `mul < 0`, ... for a known mul; None if it is about something else"""
+    """truth of `mul == 1`, `mul < 0`, `negated`, `!negated` ... for a known sign; None if it is about something else"""
     c = _strip(c)
+    if c.get("k") == "Path" and c.get("res") == "mul" and isinstance(_SV[mul], bool):
+        return _SV[mul]
+    if c.get("k") == "Unary" and c.get("op") == "Not":
+        t = _mul_test(c["a"], mul)
+        return None if t is None else not t
     if c.get("k") == "Binary" and c["op"] in ("Eq", "Ne", "Lt", "Gt", "Le", "Ge"):
         a, b = _strip(c["a"]), _strip(c["b"])
         def val(x):
             if x.get("k") == "Path" and x.get("res") == "mul":
-                return mul
+                return _SV[mul]
             if x.get("k") == "Unary" and x.get("op") == "Neg":
                 v = val(_strip(x["a"]))
                 return None if v is None else -v
             lv = lit_value(x)
-            return lv if isinstance(lv, int) and not isinstance(lv, bool) else None
+            return lv if isinstance(lv, (int, bool)) else None
         x, y = val(a), val(b)
-        if x is None or y is None:
+        if x is None or y is None or isinstance(x, bool) != isinstance(y, bool):
             return None
         return {"Eq": x == y, "Ne": x != y, "Lt": x < y, "Gt": x > y, "Le": x <= y, "Ge": x >= y}[c["op"]]
     return None
 
 
 def _sign_var(f):
-    """the local that carries the sign: bound by `let (s, <name>) = if let Some(..) = s.strip_prefix('-') { (.., -1) } else { (.., 1) }`"""
+    """the local that carries the sign: bound by `let (s, <name>) = if let Some(..) = s.strip_prefix('-') { (.., -1) } else { (.., 1) }`
+    (or the `match` form, or a flag `true` / `false` instead of the factor)"""
+    r = _sign_info(f)
+    return r[0] if r else None
+
+
+def _sign_info(f):
+    """(name of the sign local, {-1: what it holds after a `-`, 1: what it holds otherwise})"""
     for st in walk(f["hir"]["value"], pats=False):
         if st.get("k") == "Let" and st["pat"].get("k") == "PTuple" and st.get("init") and any(m.get("k") == "MethodCall" and m["name"] == "strip_prefix" for m in walk(st["init"], pats=False)):
             names = [b["name"] for b in walk(st["pat"]) if b.get("k") == "PBinding"]
-            if len(names) == 2:
-                return names[1]
+            if len(names) != 2:
+                continue
+            stripped = {b["name"] for p_ in walk(st["init"]) if p_.get("k") == "PTupleStruct" and short(p_.get("res") or "") == "Some" for b in walk(p_) if b.get("k") == "PBinding"}
+            vals = {}
+            for t in walk(st["init"], pats=False):
+                if t.get("k") == "Tup" and len(t["elems"]) == 2:
+                    x = _strip(t["elems"][1])
+                    lv = lit_value(x)
+                    if x.get("k") == "Unary" and x.get("op") == "Neg" and isinstance(lit_value(_strip(x["a"])), int):
+                        lv = -lit_value(_strip(x["a"]))
+                    if not isinstance(lv, (int, bool)):
+                        continue
+                    first = _strip(t["elems"][0])
+                    side = -1 if (first.get("k") == "Path" and first.get("res") in stripped) else 1
+                    vals[side] = lv
+            if set(vals) == {1, -1} and vals[1] != vals[-1] and (isinstance(vals[1], bool) or (vals[1], vals[-1]) == (1, -1)):
+                return names[1], vals
     return None
 
 
@@ -238,9 +277,12 @@ WANT = {1: (0, 2 ** 32 - 1), -1: (0, 2 ** 31)}
 def c17g(F, R):
     """a 32-bit value may be written in any notation: after the optional sign, hexadecimal, binary and decimal magnitudes are accepted on the same range - 0..=0xFFFFFFFF without a sign (read as the two's-complement word), 0..=0x80000000 after `-` - and yield sign x magnitude as a 32-bit value; `0xFFFFFFFF` accepted and `4294967295` rejected is the same value read differently"""
     f, ms = number_matches(F)
-    if _sign_var(f) is None:
+    si = _sign_info(f)
+    if si is None:
         R.bad("sign", "UNEXTRACTABLE: no `let (s, sign) = if let Some(..) = s.strip_prefix('-') ..` in Imm::from_str", f["sp"])
         return
+    _SV.clear()
+    _SV.update(si[1])
     seen = set()
     for nota, pty, m, sv in ms:
         seen.add(nota)
